@@ -94,7 +94,7 @@ impl<'de, T: Deserialize<'de>> Deserialize<'de> for One<T> {
 fn urlencoded_entry<T: for<'de> Deserialize<'de>, const N: usize>() {
     let (b, len) = sym_input::<N>();
     let r = ohkami_lib::serde_urlencoded::from_bytes::<One<T>>(&b[..len]);
-    kani::cover!(matches!(r, Ok(One(Some(_)))), "decoded an entry");
+    kani::cover!(matches!(r, Ok(_)), "accepted");
     kani::cover!(r.is_err(), "refused");
     std::mem::forget(r);
 }
@@ -113,14 +113,14 @@ fn c08_urlencoded_u8() { urlencoded_entry::<u8, 4>() }
 #[kani::unwind(7)]
 fn c08_urlencoded_bool() { urlencoded_entry::<bool, 4>() }
 
-// @verif prop=C08 tier=quick mem=20 bounds="urlencoded from_bytes into {key: i64}: input 0..=4 arbitrary bytes"
+// @verif prop=C08 tier=thorough mem=30 timeout=3000 bounds="urlencoded from_bytes into {key: i64}: input 0..=4 arbitrary bytes"
 #[kani::proof]
 #[kani::stub(alloc::fmt::format, stubs::format_stub)]
 #[kani::stub(core::str::from_utf8, stubs::from_utf8_model)]
 #[kani::unwind(7)]
 fn c08_urlencoded_i64() { urlencoded_entry::<i64, 4>() }
 
-// @verif prop=C08 tier=quick mem=20 bounds="urlencoded from_bytes into {key: String}: input 0..=4 arbitrary bytes; the string must be UTF-8"
+// @verif prop=C08 tier=thorough mem=30 timeout=3000 bounds="urlencoded from_bytes into {key: String}: input 0..=4 arbitrary bytes; the string must be UTF-8"
 #[kani::proof]
 #[kani::stub(alloc::fmt::format, stubs::format_stub)]
 #[kani::stub(core::str::from_utf8, stubs::from_utf8_model)]
@@ -133,21 +133,21 @@ fn c08_urlencoded_string() {
     std::mem::forget(r);
 }
 
-// @verif prop=C08 tier=quick mem=20 bounds="urlencoded from_bytes into {key: char}: input 0..=4 arbitrary bytes"
+// @verif prop=C08 tier=thorough mem=30 timeout=3000 bounds="urlencoded from_bytes into {key: char}: input 0..=4 arbitrary bytes"
 #[kani::proof]
 #[kani::stub(alloc::fmt::format, stubs::format_stub)]
 #[kani::stub(core::str::from_utf8, stubs::from_utf8_model)]
 #[kani::unwind(7)]
 fn c08_urlencoded_char() { urlencoded_entry::<char, 4>() }
 
-// @verif prop=C08 tier=quick mem=20 bounds="urlencoded from_bytes into {key: Option<u8>}: input 0..=4 arbitrary bytes"
+// @verif prop=C08 tier=thorough mem=30 timeout=3000 bounds="urlencoded from_bytes into {key: Option<u8>}: input 0..=4 arbitrary bytes"
 #[kani::proof]
 #[kani::stub(alloc::fmt::format, stubs::format_stub)]
 #[kani::stub(core::str::from_utf8, stubs::from_utf8_model)]
 #[kani::unwind(7)]
 fn c08_urlencoded_option() { urlencoded_entry::<Option<u8>, 4>() }
 
-// @verif prop=C08 tier=quick mem=20 bounds="urlencoded from_bytes into {key: ()}: input 0..=4 arbitrary bytes"
+// @verif prop=C08 tier=thorough mem=30 timeout=3000 bounds="urlencoded from_bytes into {key: ()}: input 0..=4 arbitrary bytes"
 #[kani::proof]
 #[kani::stub(alloc::fmt::format, stubs::format_stub)]
 #[kani::stub(core::str::from_utf8, stubs::from_utf8_model)]
@@ -164,7 +164,7 @@ fn cookie_entry<T: for<'de> Deserialize<'de>, const N: usize>() {
     std::mem::forget(r);
 }
 
-// @verif prop=C08 tier=quick mem=20 bounds="Cookie from_str into {name: String}: input 0..=4 bytes of UTF-8"
+// @verif prop=C08 tier=thorough mem=30 timeout=3000 bounds="Cookie from_str into {name: String}: input 0..=4 bytes of UTF-8"
 #[kani::proof]
 #[kani::stub(alloc::fmt::format, stubs::format_stub)]
 #[kani::stub(core::str::from_utf8, stubs::from_utf8_model)]
@@ -179,7 +179,7 @@ fn c08_cookie_string() {
     std::mem::forget(r);
 }
 
-// @verif prop=C08 tier=quick mem=20 bounds="Cookie from_str into {name: u8}: input 0..=4 bytes of UTF-8"
+// @verif prop=C08 tier=thorough mem=30 timeout=3000 bounds="Cookie from_str into {name: u8}: input 0..=4 bytes of UTF-8"
 #[kani::proof]
 #[kani::stub(alloc::fmt::format, stubs::format_stub)]
 #[kani::stub(core::str::from_utf8, stubs::from_utf8_model)]
